@@ -4,6 +4,7 @@ import (
 	"encoding/json"
 	"fmt"
 	"os"
+	"strings"
 
 	"verif/harness/bfs"
 	"verif/harness/rt"
@@ -167,3 +168,47 @@ func crossMintP2PKMenu(w *wworld.World) []string {
 }
 
 var crossMintCfg = wworld.Config{FeeA: 100, FeeB: 0, TwoMints: true, Wallets: []wworld.WalletCfg{{Default: "a"}, {Default: "a"}, {Default: "b"}}}
+
+// wUnionMenu: the union of all wallet-level menus (see unionMenu in seqcommon.go for the idea).
+func wUnionMenu(w *wworld.World) []string {
+	seen := map[string]bool{}
+	var ops []string
+	menus := []func(*wworld.World) []string{c17Menu, c19Menu, c08Menu, c19GenMenu}
+	if len(w.Wallets) >= 3 && w.Cfg.TwoMints {
+		menus = append(menus, crossMintP2PKMenu)
+	}
+	for _, menu := range menus {
+		for _, op := range menu(w) {
+			if !seen[op] {
+				seen[op] = true
+				ops = append(ops, op)
+			}
+		}
+	}
+	return ops
+}
+
+// wUnionSpec: shallow search over the union menu on three wallets and two mints (W1, W2 at mint a with fees, W3 at b).
+func wUnionSpec(prop string, quick bool, setup func(*wworld.World), probe func(*wworld.World), noInv bool) *wSpec {
+	d := 2
+	name := prop + "-union-q"
+	if !quick {
+		d = 3
+		name = prop + "-union"
+	}
+	menu := wUnionMenu
+	if !noInv {
+		// C17's bookkeeping of what a wallet has handed out does not survive re-creating the wallet from its seed (the
+		// restored wallet rightly holds unspent proofs that sit in tokens): restore is C19's subject, not part of this menu
+		menu = func(w *wworld.World) []string {
+			var ops []string
+			for _, op := range wUnionMenu(w) {
+				if !strings.HasPrefix(op, "restore|") {
+					ops = append(ops, op)
+				}
+			}
+			return ops
+		}
+	}
+	return &wSpec{Prop: prop, Name: name, Cfg: crossMintCfg, Init: []string{"mint|0|16", "mint|2|16"}, Setup: setup, Menu: menu, Probe: probe, Depth: d, NoInvariants: noInv}
+}
